@@ -93,7 +93,16 @@ def gen_case(rng, idx, tier):
         case["hist"] = []
         for d in dims:
             if decimal:
-                case["hist"].append([d.glo + (rng.randint(-2, d.n + 1) + 0.5 + rng.choice([-0.25, -0.125, 0.0, 0.125, 0.25])) * d.gw for _ in range(T + 1)])
+                # 60 % well inside a bin; 40 % exactly on a decimal bin edge (the double closest to lower + k*width): the literal
+                # rule floor((x - lower)/width), evaluated in double precision, decides the bin
+                from decimal import Decimal as _D
+                hv = []
+                for _ in range(T + 1):
+                    if rng.random() < 0.4:
+                        hv.append(float(_D(repr(d.glo)) + rng.randint(0, d.n) * _D(repr(d.gw))))
+                    else:
+                        hv.append(d.glo + (rng.randint(-2, d.n + 1) + 0.5 + rng.choice([-0.25, -0.125, 0.0, 0.125, 0.25])) * d.gw)
+                case["hist"].append(hv)
             elif d.name == "d1":
                 case["hist"].append([ctl.dy(rng, 1.0, 9.5, 2) for _ in range(T + 1)])
             elif d.periodic:
